@@ -603,7 +603,7 @@ class Gen:
 
     def op_child_local(self, t):
         v = self.var()
-        re = "Re" if self.mode == "wild" and self.r.chance(1, 6) else ""
+        re = "Re" if (self.mode == "wild" or self.k.get("re_names")) and self.r.chance(1, 6) else ""
         self.emit(t, "childLocal%s %s %s" % (re, v, hx(self.name())))
         return v
 
@@ -663,7 +663,7 @@ class Gen:
 
     def op_local_enter(self, t):
         self.maybe_prebuild(t)
-        re = "Re" if self.mode == "wild" and self.r.chance(1, 6) else ""
+        re = "Re" if (self.mode == "wild" or self.k.get("re_names")) and self.r.chance(1, 6) else ""
         self.emit(t, "localEnter%s %s" % (re, hx(self.name("l"))))
 
     def op_close(self, t):
